@@ -204,7 +204,8 @@ func strAtFunc(_ *ctx.EvalCtx, receiver object.Object, args ...object.Object) (o
 		index = len(chars) + index
 	}
 
-	if index >= len(chars) {
+	// out of range on either side
+	if index < 0 || index >= len(chars) {
 		return &object.Nil{}, nil
 	}
 
